@@ -199,6 +199,10 @@ func updateRegex(filePath string, ruleId string, chainOffset uint8, newRegex str
 	var line []byte
 	foundRule := false
 	chainCount := uint8(0)
+	// only follow the chain of the rule: the next SecRule belongs to the
+	// rule if the actions of the previous one contain `chain`
+	chainActionRegex := regexp.MustCompile(`(?:^|[\s,"])chain(?:[\s,"\\]|$)`)
+	chained := false
 	for index, line = range lines {
 		if !foundRule && idRegex.Match(line) {
 			foundRule = true
@@ -206,10 +210,18 @@ func updateRegex(filePath string, ruleId string, chainOffset uint8, newRegex str
 				index--
 				break
 			}
+			chained = chainActionRegex.Match(line)
 			continue
 		}
 		if foundRule && regex.SecRuleRegex.Match(line) {
+			if !chained {
+				// the chain ends before the requested offset
+				break
+			}
+			chained = false
 			chainCount++
+		} else if foundRule && chainActionRegex.Match(line) {
+			chained = true
 		}
 		if foundRule && chainCount == chainOffset {
 			break
